@@ -56,6 +56,10 @@ CLAIMED["C10"] = ("Unbounded no-panic proof (every implicit panic site: nil dere
   "Trusted: the protobuf decoder's output shape (oneof wrappers and repeated message elements are non-nil, byte fields below 2^28), generated getters are inlined from the repository's .pb.go, kilic/bls12-381 point decoding is total, NewBlock/SetTimestamp bytes-to-sign via trusted contracts. Not decided: see clauses_not_decided (server and protocol handlers, the state-unchanged clause).",
   "contract-based deductive verification: WP over go/ssa + SMT (govc), zero-annotation panic obligations", "DESIGN.md 3 C10")
 
+CLAIMED["C06"] = ("Unbounded proof of the per-replica clauses over all histories of one replica (ghost traces): ClientIO.Exec keeps the history invariant iowf for every batch and every prior history: a (client, sequence number) is recorded as executed only with a sequence number strictly above everything executed for that client before (so never twice, also across blocks), the application state (hash.Write) is touched exactly once per executed command, and a success outcome is delivered only directly after that command was executed and applied; Abort never reports success and executes nothing; completeCommand answers a waiting client exactly once and removes it. On the commit path, commitInner emits CommitEvent/ExecuteEvent/latency triples for exactly the uncommitted ancestors in ancestor-first order (each block's parent hash is the previous block's hash, views strictly increase, last is the committed block, nothing on error); commit aborts only batches of blocks that PruneToHeight reported, which are above the old prune height and not on the chain of the newly committed block, after all commit triples. One genuine defect found here is fixed in /repo (PruneToHeight aborted executed blocks under equivocation).",
+  "Trusted: the event loop delivers ExecuteEvent/AbortEvent in the order added (C14 covers the queue only), hash.Hash digest state not modelled (only that Write is called once per executed command), channel sends modelled as ghost trace records, mutex atomicity, Committer.TryCommit not verified (its callees are), views grow along parent links and SHA-256 collision resistance as stated preconditions. Not decided: cross-replica prefix relation (C01), markProposed.",
+  "contract-based deductive verification: WP over go/ssa + SMT (govc), ghost traces", "DESIGN.md 7.2 C06")
+
 NA = {
  "C01": "cross-replica agreement over all schedules and Byzantine behaviours is a protocol-level inductive invariant over a distributed history; no contract on a function or object of one process can state it (DESIGN.md 3 C01)",
  "C05": "liveness / bounded progress under eventual synchrony is a property of whole executions of all replicas; partial-correctness contracts cannot state it (DESIGN.md 3 C05)",
